@@ -110,3 +110,91 @@ Theorem C15_accepted_dumps_load : forall (a : safe_arg) (prog : list op) (d : pv
   load (with_allow (effective_allow a) default_world) prog = Some d.
 Proof. exact accepted_dumps_load. Qed.
 Print Assumptions C15_accepted_dumps_load.
+
+(** * The same over BYTE STRINGS (Pickle/Bytes.v: the byte layer of the C unpickler - opcode bytes, little-endian
+    and two's complement arguments, newline-terminated text, UTF-8 / raw-unicode-escape, FRAME buffering with
+    its dropping of frame remainders - under the machine) *)
+From DD Require Import Pickle.Bytes Pickle.BytesProofs.
+
+(* for EVERY byte string handed to pickle_load(content), every reader dialect (any treatment of number text
+   outside the canonical decimal forms, FRAME buffered or skipped) and every process whose extension cache
+   holds no forbidden global: every resolved name is on the allow-list, everything called, built, passed or
+   returned contains only allowed globals, ForbiddenModule names a non-member *)
+Theorem C15_bytes_no_forbidden_resolution_partial :
+  forall (w : world) (d : dialect) (bs : list N) out tr,
+  ext_cache_safe_b w = true -> load_content w d bs = (out, tr) ->
+  (forall m n, In (EResolve m n) tr -> In (dotted m n) (allow w)) /\
+  (forall e, In e tr -> ev_safe_b (allow w) e = true) /\
+  (forall v, out = Done v -> safe_b (allow w) v = true) /\
+  (forall m n, out = Err (Forbidden m n) -> ~ In (dotted m n) (allow w)).
+Proof. exact bytes_no_forbidden_resolution. Qed.
+Print Assumptions C15_bytes_no_forbidden_resolution_partial.
+
+(* without the guard: false, by the bytes 80 02 82 c9 29 52 2e (PROTO 2, EXT1 201, (), REDUCE, STOP) *)
+Theorem C15_bytes_no_forbidden_resolution_refuted :
+  exists w bs out tr, load_content w (c_dialect no_text) bs = (out, tr) /\
+    exists k f a, In (ECall k f a) tr /\ safe_b (allow w) f = false.
+Proof. exact bytes_no_forbidden_resolution_refuted. Qed.
+Print Assumptions C15_bytes_no_forbidden_resolution_refuted.
+
+(* no guard: whatever bytes precede and follow, the first decoded opcode that asks for a non-member ends the
+   load with ForbiddenModule and the trace of the prefix *)
+Theorem C15_bytes_rejected_at_first_forbidden_lookup :
+  forall (w : world) (d : dialect) (bs : list N) pre o post st1 m n,
+  bs <> [] -> bdecode_ops d bs = (pre ++ o :: post)%list ->
+  exec w (init w) pre = Some st1 ->
+  requested w st1 o = Some (m, n) -> ~ In (dotted m n) (allow w) ->
+  load_content w d bs = (Err (Forbidden m n), rev (trace st1)).
+Proof. exact bytes_rejected_at_first_forbidden_lookup. Qed.
+Print Assumptions C15_bytes_rejected_at_first_forbidden_lookup.
+
+Theorem C15_bytes_forbidden_only_from_lookup : forall (w : world) (d : dialect) (bs : list N) m n tr,
+  load_content w d bs = (Err (Forbidden m n), tr) ->
+  exists pre o post st1,
+    bdecode_ops d bs = (pre ++ o :: post)%list /\ exec w (init w) pre = Some st1 /\
+    requested w st1 o = Some (m, n) /\ ~ In (dotted m n) (allow w) /\ tr = rev (trace st1).
+Proof. exact bytes_forbidden_only_from_lookup. Qed.
+Print Assumptions C15_bytes_forbidden_only_from_lookup.
+
+(* the decoder is total (the fuel, the length of the input, never runs out) ... *)
+Theorem C15_decoder_total : forall (d : dialect) (bs : list N), bdecode_end d bs <> DFuel.
+Proof. exact bdecode_no_fuel. Qed.
+Print Assumptions C15_decoder_total.
+
+(* ... a stream that decodes up to a STOP decodes to the same opcodes whatever is appended ... *)
+Theorem C15_decoder_ignores_what_follows_STOP : forall (d : dialect) (bs : list N) ops s junk,
+  bdecode d bs = (ops, DStop, s) -> bdecode d (bs ++ junk) = (ops, DStop, s).
+Proof. exact bdecode_stop_ext. Qed.
+Print Assumptions C15_decoder_ignores_what_follows_STOP.
+
+(* ... when the C unpickler skips no frame byte (checked on every dump of every run) it reads exactly what a
+   sequential reader that ignores FRAME reads: pickletools.genops ... *)
+Theorem C15_decoder_sequential_when_nothing_skipped : forall (d : dialect) (bs : list N) ops,
+  dl_framed d = true -> bdecode d bs = (ops, DStop, false) -> bdecode (unframed d) bs = (ops, DStop, false).
+Proof. exact bdecode_noskip_sequential. Qed.
+Print Assumptions C15_decoder_sequential_when_nothing_skipped.
+
+(* ... and it inverts the assembler, opcode by opcode, in the frame buffer or in the file, for every opcode of
+   protocols 0-5 except FLOAT text (FRAME: [decode_op_enc_seq], [bdecode_dump]) *)
+Theorem C15_decoder_inverts_assembler : forall fr (t : textw) ib (o : op) s r,
+  putok ib r -> enc_ok o = true -> not_frame o = true ->
+  decode_op (cdl fr t) (put ib (enc_op o ++ s) r) = ROk o (put ib s r).
+Proof. exact decode_op_enc. Qed.
+Print Assumptions C15_decoder_inverts_assembler.
+
+(* so the assembler is a prefix code and a byte string stands for at most one opcode list *)
+Theorem C15_assembler_prefix_free : forall o1 o2 x y, enc_ok o1 = true -> enc_ok o2 = true ->
+  (enc_op o1 ++ x = enc_op o2 ++ y)%list -> o1 = o2 /\ x = y.
+Proof. exact enc_op_prefix_free. Qed.
+Print Assumptions C15_assembler_prefix_free.
+Theorem C15_assembler_injective : forall ops1 ops2, forallb enc_ok ops1 = true -> forallb enc_ok ops2 = true ->
+  enc_ops ops1 = enc_ops ops2 -> ops1 = ops2.
+Proof. exact enc_ops_inj. Qed.
+Print Assumptions C15_assembler_injective.
+
+(* the converse clause on bytes: the canonical dump of a well-formed payload over allow-listed classes loads *)
+Theorem C15_own_dumps_load_bytes : forall (t : textw) (d : pv) junk,
+  wfp d = true -> types_default_b d = true -> dump_ok d = true ->
+  exists o tr, load_content default_world (c_dialect t) (dump_bytes d ++ junk) = (Done o, tr) /\ decode o = Some d.
+Proof. exact own_dumps_load_bytes. Qed.
+Print Assumptions C15_own_dumps_load_bytes.
